@@ -1113,7 +1113,10 @@ def install_run2(e):
         app, env = app_of(a), env_of(a)
         rec = env["reconnect"]
         nodis = isinstance(rec, int) and rec == 0
-        base = z3.And(APPINV(c, app), z(c.ghost["attempts"]) == z(old.ghost["attempts"]) + 1)
+        # exactly one connection attempt - none at all when the application's close() came while this reconnect was pending
+        # (C15: the application's own close() ends the run with no further connection attempt)
+        closed_meanwhile = z3.And(z(a["reconnecting"], "bool"), z3.Not(z(old.getf(app, "keep_running"), "bool")))
+        base = z3.And(APPINV(c, app), z(c.ghost["attempts"]) == z(old.ghost["attempts"]) + z3.If(closed_meanwhile, 0, 1))
         if not env["custom_dispatcher"]:
             base = z3.And(base, z3.Implies(z3.Not(z(old.getf(app, "has_done_teardown"), "bool")), D_OK(c, old, app)))
         return base
@@ -1186,22 +1189,35 @@ def install_run3(e):
 
     def rc_req(c, a):
         app = rc_app(c, a)
-        return z3.And(APPINV(c, app), z(c.ghost["live_ping_threads"], "int") == 0, z3.Not(z(c.getf(app, "has_done_teardown"), "bool")))
+        return z3.And(APPINV(c, app), z(c.ghost["live_ping_threads"], "int") == 0, z3.Not(z(c.getf(app, "has_done_teardown"), "bool")),
+                      z(c.getf(app, "keep_running"), "bool"))
 
     def rc_post(c, old, a, res):
         app = rc_app(c, a)
-        return z3.And(APPINV(c, app), z(c.ghost["attempts"]) == z(old.ghost["attempts"]) + 1,
+        closed = c.ghost.get("$closed_in_pause")
+        closed = z3.BoolVal(False) if closed is None else closed
+        return z3.And(APPINV(c, app), z(c.ghost["attempts"]) == z(old.ghost["attempts"]) + z3.If(closed, 0, 1),
                       # the attempt comes after the interval
-                      z(c.ghost["last_attempt_clock"], "real") >= z(old.ghost["clock"], "real") + z(a["seconds"], "real"),
+                      z3.Implies(z3.Not(closed), z(c.ghost["last_attempt_clock"], "real") >= z(old.ghost["clock"], "real") + z(a["seconds"], "real")),
                       z3.Implies(z(c.getf(app, "keep_running"), "bool"), z(c.ghost["live_ping_threads"], "int") == 0),
                       z3.Implies(z(c.getf(app, "has_done_teardown"), "bool"), z3.Not(z(c.getf(app, "keep_running"), "bool"))),
                       D_OK(c, old, app))
+
+    def pause_interleaving(c, fr, r):
+        """ghost statement after time.sleep() in DispatcherBase.reconnect: another thread may have called app.close() during the
+        pause (keep_running' = False, socket dropped) - the one interleaving with application code that C15 names explicitly."""
+        app = c.getf(fr.locals["self"], "app")
+        kr0 = z(c.getf(app, "keep_running"), "bool")
+        app_closed_by_callback(c, app)
+        c.ghost["$closed_in_pause"] = z3.And(kr0, z3.Not(z(c.getf(app, "keep_running"), "bool")))
+    e.after_call[("DispatcherBase.reconnect", "sleep")] = pause_interleaving
 
     def rc_exc(c, old, a, exc):
         return z3.And(APPINV(c, rc_app(c, a)), D_OK(c, old, rc_app(c, a)))
 
     def rc_havoc(c, a, old, k):
         ss.havoc(c, {"$closure": {"self": rc_app(c, a)}, "reconnecting": True}, old, k)
+        c.ghost["$closed_in_pause"] = smt.fresh(smt.Bool, "closed_in_pause")
     e.add(Contract(D + "DispatcherBase.reconnect", cases=[("builtin", rc_case)], requires=rc_req, ensures=rc_post, havoc=rc_havoc,
                    modifies=lambda c, a: ss.modifies(c, {"$closure": {"self": rc_app(c, a)}}),
                    raises=[(KeyboardInterrupt, None, rc_exc), (SystemExit, None, rc_exc),
@@ -1225,7 +1241,8 @@ def install_run3(e):
                      z3.Implies(done1, z3.And(zn(c.getf(app, "sock")), z(c.ghost["live_ping_threads"], "int") == 0))]) + [
                  z3.Implies(z(c.getf(app, "has_done_teardown"), "bool"), z3.Not(z(c.getf(app, "keep_running"), "bool")))]
         if "last_attempt_clock" in c.ghost and "clock" in old.ghost:
-            extra.append(z(c.ghost["last_attempt_clock"], "real") >= z(old.ghost["clock"], "real"))
+            attempted = z3.Not(z3.And(z(a["reconnecting"], "bool"), z3.Not(z(old.getf(app, "keep_running"), "bool"))))
+            extra.append(z3.Implies(attempted, z(c.ghost["last_attempt_clock"], "real") >= z(old.ghost["clock"], "real")))
         return z3.And(base_post(c, old, a, res), *extra)
     ss.ensures = ss_post2
 
